@@ -493,7 +493,12 @@ class Interp:
             return UNIT
         if t == "Array":
             return [self.eval(x, env) for x in e["elems"]]
+        if t == "StructExpr":
+            return self.struct_expr(e["path"]["name"], {f["member"]: self.eval(f["expr"], env) for f in e["fields"]}, e)
         raise Unanalysable(f"expression kind {t} not modelled")
+
+    def struct_expr(self, name, fields, node):
+        raise Unanalysable(f"struct literal {name} is not in the rule's table")
 
     def index(self, base, idx, node):
         if isinstance(base, list) and isinstance(idx, int) and not isinstance(idx, bool) and 0 <= idx < len(base):
